@@ -1,6 +1,7 @@
 package props
 
 import (
+	"unicode/utf8"
 	"fmt"
 	"sort"
 	"strconv"
@@ -297,12 +298,35 @@ func c14Accounting(e *core.Env, r *core.Rand, d *gen.Out) {
 			e.Violation("tag-filter-fails", fmt.Sprintf("klog total --tag %s failed", ref.CanonicalTag(key)), w)
 			return
 		}
+		if n == 0 && !strings.HasPrefix(ref.CanonicalTag(key), "#-") {
+			// the same clause through the argument decoder of the full CLI
+			cres := obs.RunCLI(obs.CLIEnv{ConfigDir: e.Dir + "/cfg", Cpus: 1, Theme: "no_colour", Clock: clock}, "total", "--decimal", "--no-style", "--no-warn", "--tag", ref.CanonicalTag(key), f)
+			if cres.Panic != nil || cres.Code != 0 || cres.Out != tres.Out {
+				e.Violation("tag-filter-cli-differs", fmt.Sprintf("`klog total --tag %s` through the full CLI (exit %d) prints\n%s\nthe command given the parsed tag prints\n%s", ref.CanonicalTag(key), cres.Code, trunc(cres.Out+cres.Err, 300), trunc(tres.Out, 300)), w)
+				return
+			}
+			e.Count("tag_filters_also_through_full_cli", 1)
+		}
 		to, perr := parseTotalOutput(tres.Out)
 		if perr != nil || to.Total != strconv.Itoa(want[key].total) {
 			e.Violation("tag-filter-disagrees-with-accounting", fmt.Sprintf("`klog total --tag %s` = %s, but the entries carrying that tag sum to %d (the `klog tags` row)", ref.CanonicalTag(key), to.Total, want[key].total), w)
 			return
 		}
 		e.Count("tag_filter_totals_checked", 1)
+	}
+	// the JSON view of the same file: every record's and entry's `tags` array lists exactly the recognised tags
+	if jres := runRO(e, &cli.Json{InputFilesArgs: util.InputFilesArgs{File: files(f)}}, 1, "", "", clock); jres.Panic == nil && jres.Err == nil {
+		if recs, _, rnull, enull, jerr := decodeJSONEnvelope(jres.Out); jerr == nil && !rnull && enull {
+			wantRecs := make([]expectedRec, len(d.Doc.Recs))
+			for i := range d.Doc.Recs {
+				wantRecs[i] = expectedRec{Rec: &d.Doc.Recs[i], ClosedEnd: -1}
+			}
+			if diff := compareJSONRecords(recs, wantRecs, true, utf8.ValidString(d.Text)); diff != "" {
+				e.Violation("json-tags-differ-from-recognised-tags", "`klog json`: "+diff, w)
+				return
+			}
+			e.Count("json_views_checked", 1)
+		}
 	}
 	// several --tag clauses at once: every clause has to hold for an entry (its own tags together with the record's); naming
 	// a tag twice - in the same or in another notation - changes nothing; two values of one name are two clauses
